@@ -48,6 +48,37 @@ Theorem C06_for_controls :
 Proof. exact for_controls. Qed.
 Print Assumptions C06_for_controls.
 
+(* THE RULE AS A FUNCTION OVER THE ACCESS CHAIN.  For root symbol s and links l (value field, &T field, &'T field,
+   fixed-array element, dynamic-array element; any length) the port rejects a write (=, compound assignment, ++/--)
+   to  root.l1...ln  exactly when chain_error s l: an immutable reference lies anywhere on the path, or the root is a
+   constant / read-only variable and no link before the written slot goes through a reference.  Holds for EVERY root
+   kind: value receiver and by-value parameter included (they get no exemption from the immutable-reference test). *)
+Theorem C06_chain_rule_exact :
+  forall (E : env) (x : nat) (s : sym) (l : list link) (f : form),
+    E x = Some s -> write_form f = true ->
+    allowed E f (place_from (PIdent x) l) = negb (chain_error s l).
+Proof. exact chain_exact. Qed.
+Print Assumptions C06_chain_rule_exact.
+
+(* ... and the rule agrees with the reference judgement: it fires iff the target is frozen, or the written
+   expression lies in a read-only binding (a const holding a reference, where the compiler is stricter than needed) *)
+Theorem C06_chain_rule_agrees :
+  forall (E : env) (x : nat) (s : sym) (l : list link) (f : form),
+    E x = Some s -> write_form f = true ->
+    (chain_error s l = true <->
+     TargetFrozen E f (place_from (PIdent x) l) \/ InReadonlyBinding E (place_from (PIdent x) l)).
+Proof. exact chain_rule_agrees. Qed.
+Print Assumptions C06_chain_rule_agrees.
+
+(* a by-value root (value receiver, by-value parameter, let) whose field is an immutable reference: every write
+   through that field is rejected, whatever follows *)
+Theorem C06_value_root_imm_field :
+  forall (E : env) (x : nat) (k : skind) (l : list link) (f : form),
+    E x = Some (mkSym k false RNone) -> write_form f = true ->
+    allowed E f (place_from (PIdent x) (LImm :: l)) = false.
+Proof. exact value_root_imm_field_rejected. Qed.
+Print Assumptions C06_value_root_imm_field.
+
 (* no over-rejection: a target that is not frozen passes the mutability checks in every applicable form *)
 Theorem C06_mutable_accepted :
   forall (E : env) (f : form) (p : place),
